@@ -98,9 +98,10 @@ Need(p, k) == NeedFrom(p, Len(p), k)
 \* The property itself only promises "k plus a SMALL CONSTANT": an implementation may read a few rows ahead in every
 \* stage (block-wise pulling, one row of lookahead in a filter ...).  Small is that constant per stage; the property-level
 \* bound composes it through the stages exactly like the lookahead (a stage that over-reads asks its upstream for more).
-\* 16 = an order of magnitude above the largest lookahead of the code as found (1) and far below every sample / batch
-\* size petl uses (1000), so that reading a whole sample or chunk is still refused.
-Small == 16
+\* 100 = two orders of magnitude above the largest lookahead of the code as found (1), enough for a stage that fetches
+\* its input in blocks (a false-alarm test pulled 64 rows at a time in every select), and an order of magnitude below
+\* every sample / batch size petl uses (1000), so that reading a whole sample or chunk is still refused.
+Small == 100
 RECURSIVE NeedFromS(_, _, _)
 NeedFromS(p, s, k) == IF s = 0 THEN k ELSE NeedFromS(p, s - 1, NeedOf(p[s], k) + LookaheadOf(p[s]) + Small)
 NeedS(p, k) == NeedFromS(p, Len(p), k)
